@@ -114,6 +114,16 @@ class Text(Part):
                 parts.insert(0, ["lit", draw(st.sampled_from(
                     ["<", "<p>", "</x>", "<!--", "<?xml version='1.0'?>",
                      '<p tal:content="a">', "<x ", "<![CDATA["]))])
+            # escaped interpolations ($${...} is the text ${...}) at the
+            # very start and directly behind an interpolation
+            esc = ["$${x}", "$$$${a}", "$${a}$${b}", "$${", "$$"]
+            if draw(st.integers(0, 4)) == 0:
+                parts.insert(0, ["lit", draw(st.sampled_from(esc))])
+            if draw(st.integers(0, 3)) == 0:
+                idx = [i for i, p_ in enumerate(parts) if p_[0] == "expr"]
+                if idx:
+                    i = draw(st.sampled_from(idx))
+                    parts.insert(i + 1, ["lit", draw(st.sampled_from(esc))])
             form = "plain"
             if cls == "file":
                 # the file may carry its own encoding marker; the OUTPUT
